@@ -45,6 +45,9 @@ def run(rep, kf, tier, seed):
                        + ["assumed library contract: " + t for t in libmodels.TRUSTED])
     rep.assumptions.append("machine arithmetic: Python ints are unbounded (exact); floats are reals plus inf/-inf/nan; "
                            "float(int) overflows beyond the double range")
+    import contracts.model_plumbing as cmp_
+    from pyvc import engine_b as _eb2
+    _eb2.discharge(rep, kf, [cmp_.const_build_contract()], "C13", tier, seed)
     import contracts.scalar_build as csb
     from pyvc import engine_b as _eb
     _eb.discharge(rep, kf, csb.all_contracts(), "C13", tier, seed)
